@@ -215,3 +215,28 @@ Theorem C02_gen_verifyRevocation_spec :
             /\ (ValidationResult_Error r = None <-> rev_ok_of C ast PM v env).
 Proof. exact gen_verifyRevocation_spec. Qed.
 Print Assumptions C02_gen_verifyRevocation_spec.
+
+(* ---------------------------------------------------------------------- *)
+(* executePlugin: what the plugin is asked, and the nil answer              *)
+(* ---------------------------------------------------------------------- *)
+
+(* With a plugin and an envelope: the plugin is asked once ([vsig], the oracle for
+   VerifyPlugin.VerifySignature), for exactly the capabilities to verify and the statement's trusted
+   identities, and is handed the keys of getNonPluginExtendedCriticalAttributes = [other_keys] of
+   the scenario as attributes to process (the [o_exec] component of the model's observation,
+   theorem C02_plugin_request); [exec_post]: a nil answer without error becomes an error (fix
+   686cc56), anything else is handed on unchanged. *)
+Theorem C02_gen_executePlugin_spec :
+  forall (C : Type) (vsig : ptr plugin_VerifySignatureRequest -> ptr plugin_VerifySignatureResponse * option GoLib.err)
+         (VP : Type) (raw : C -> list Z) plugin p caps envelope env ids cfg,
+  ptr_val plugin = Some p -> ptr_val envelope = Some env ->
+  exists req out,
+    gen_verifier_executePlugin C vsig VP raw plugin caps envelope ids cfg = Some out
+    /\ exec_post (vsig (PNew req)) out
+    /\ TrustPolicy_SignatureVerification (VerifySignatureRequest_TrustPolicy req) = caps
+    /\ TrustPolicy_TrustedIdentities (VerifySignatureRequest_TrustPolicy req) = ids
+    /\ Signature_UnprocessedAttributes (VerifySignatureRequest_Signature req)
+       = map fst (other_of (SignedAttributes_ExtendedAttributes (SignerInfo_SignedAttributes C (EnvelopeContent_SignerInfo C env))))
+    /\ VerifySignatureRequest_PluginConfig req = cfg.
+Proof. exact gen_executePlugin_spec. Qed.
+Print Assumptions C02_gen_executePlugin_spec.
